@@ -72,7 +72,7 @@ def run_one(rep, binary, prov, nthr, nops, repeats, seed, rd, label, tsan, mode=
 def run(tier, seed, replay):
     rep = vf.Report("C18", tier, seed)
     thorough = tier == "thorough"
-    nthr, nops, repeats = (16, 1200, 8) if thorough else (8, 300, 3)
+    nthr, nops, repeats = (16, 1200, 8) if thorough else (12, 220, 3)   # more threads than any small pool or table an implementation is likely to keep (8)
     rep.rule = ("%d threads x %d operations x %d repeats x 2 providers on the ThreadSanitizer build (and once on the ASan build): each thread "
                 "uses its own builders/checkers, all share one keyring with 12 keys (five oct keys of 32..300 octets, three of them under one algorithm and two longer than any hash block; RSA, RSA-PSS, P-256/384/521, Ed25519, Ed448); each "
                 "repeat concentrates on three keys so that threads collide; an allocator installed through jwt_set_alloc yields/sleeps at "
